@@ -572,7 +572,7 @@ def closing_begun(s):
     return s.hs_done_len > 0 and (s.proto.state in (S_CLOSING, S_CLOSED) or bool(s.t.calls))
 
 
-def bounded_time(cfg, history):
+def bounded_time(cfg, history, stalled=False):
     """side run: silent peer, clock advanced by the configured close + drop timeouts (+1 s timer
     granularity): the transport must have been dropped; delivering the drop fires onClose once"""
     s = build(cfg, history)
@@ -588,6 +588,13 @@ def bounded_time(cfg, history):
         # its close frame legitimately waits for the peer's without bound
         return [], s
     budget = cfg["cht"] + (cfg["sdt"] if cfg["role"] == "client" else 0) + 1.0
+    if stalled:
+        if s.conn.lost or s.conn.own_drop_pending() or s.t.disconnecting:
+            return [], s
+        # the silent peer has also stopped READING: our write buffer does not drain, so only an
+        # abort of the transport gets rid of the connection (a graceful close waits for the flush)
+        s.t.stalled = True
+        s.t.unsent = max(1, s.t.unsent)
     if not s.conn.lost and not s.conn.own_drop_pending():
         s.conn.advance(budget + 1e-6)
     bad = []
@@ -618,10 +625,10 @@ def job(a):
     env = worker.ENV
     viol = []
     persig = {}
-    stats = {"states": 0, "transitions": 0, "bounded_time_runs": 0, "max_depth": 0}
+    stats = {"states": 0, "transitions": 0, "bounded_time_runs": 0, "bounded_time_runs_peer_not_reading": 0, "max_depth": 0}
     reach = set()
 
-    def report(clause, detail, hist):
+    def report(clause, detail, hist, **extra):
         cid = "%s/%s/%s" % (cfg["role"], "drop" if cfg["failByDrop"] else "close", cfg["start"])
         sig = "C05|%s|%s|%s" % (clause, cfg["role"], hist[-1] if hist else "init")
         persig[sig] = persig.get(sig, 0) + 1
@@ -632,7 +639,7 @@ def job(a):
                              clause, detail),
                          "replay": {"env": {"fw": env.get("fw"), "nvx": "1"},
                                     "func": "props.c05:replay",
-                                    "arg": {"cfg": cfg, "history": list(hist)}}})
+                                    "arg": dict({"cfg": cfg, "history": list(hist)}, **extra)}})
     s0 = build(cfg, ())
     seen = {digest(s0.canon())}
     frontier = [()]
@@ -677,6 +684,11 @@ def job(a):
                     stats["bounded_time_runs"] += 1
                     for clause, detail in bad:
                         report("bounded:" + clause, detail, hist)
+                    if not bad and not s.t.disconnecting:
+                        bad, s2 = bounded_time(cfg, hist, stalled=True)
+                        stats["bounded_time_runs_peer_not_reading"] += 1
+                        for clause, detail in bad:
+                            report("bounded-peer-not-reading:" + clause, detail, hist, stalled=True)
                 if sample is None and len(hist) == depth:
                     sample = {"cfg": cfg, "history": list(hist), "state": s.proto.state,
                               "rec": [e[0] for e in s.proto.rec]}
@@ -929,6 +941,10 @@ def replay(a):
         bad, _ = bounded_time(cfg, tuple(hist))
         out.append({"bounded_time": bad})
         viol += [{"sig": "bounded:" + c, "desc": d} for c, d in bad]
+        if a.get("stalled"):
+            bad, _ = bounded_time(cfg, tuple(hist), stalled=True)
+            out.append({"bounded_time_peer_not_reading": bad})
+            viol += [{"sig": "bounded-peer-not-reading:" + c, "desc": d} for c, d in bad]
     return {"trace": out, "viol": viol}
 
 
